@@ -1046,6 +1046,7 @@ def _body(run, case):
         c.av_same = False            # True: active == visible although the numbers are not known
         c.pg = {}                    # page number -> rows (bytes) last written on a page that is not the active one
         c.hidden_written = set()     # pages whose reference includes placement predictions made while hidden
+        c.lineclear_in_window = False   # input shape: Esc / Ctrl+End in the line editor while VIEW PRINT is active
         c.viewport = None            # None = whole screen; else (x0, y0, x1, y1)
         c.tm = TextModel()
         c.since_drain = 0
@@ -1111,6 +1112,7 @@ def _scan_signals(c):
         # a mode change rebuilds every page: no page has a reference content any more
         c.pg.clear()
         c.hidden_written.clear()
+        c.lineclear_in_window = False
     return mode_set
 
 
@@ -1288,6 +1290,10 @@ def _drain_and_compare(c, label):
                 bad = cp437 and 32 < ord(cb) < 127
             if bad:
                 tag = disp.tag_at(y, x)
+                if c.lineclear_in_window:
+                    # input shape of a known class: the line editor cleared a logical line (Esc, Ctrl+End)
+                    # while a VIEW PRINT window was set (the line may reach below the window)
+                    tag += ':after-line-clear-with-view-print-active'
                 run.violate('C35', 'chars:' + tag,
                             'row=%d col=%d: get_chars() reports %r, the display shows %r (get_chars(unicode) %r); '
                             'cell last touched by %s; mode %r %s' % (y + 1, x + 1, cb, cu, tx[y][x], tag, disp.mode, where))
@@ -1747,11 +1753,17 @@ def _run_with_keys(c, keys, fn, quit_at_prompt, poll_cap=8000):
         w.poll_hook = old
 
 
+def _note_line_clear(c, keys):
+    if c.tm.win_active and ('\x1b' in keys or '\x05' in keys):
+        c.lineclear_in_window = True
+
+
 def _h_typed(c, op):
     """Type a line with editing keys at the direct-mode prompt (interact mode), then Enter."""
     from pcbasic.basic.base import error
     w = c.w
     keys = [ch for ch in op['keys'] if ch != '\r'] + ['\r']
+    _note_line_clear(c, op['keys'])
 
     def go():
         w.op_poll_base = w.poll_no
@@ -1779,6 +1791,7 @@ def _h_typed(c, op):
 
 def _h_lineinput(c, op):
     keys = [ch for ch in op['keys'] if ch not in '\r'] + ['\r']
+    _note_line_clear(c, op['keys'])
     stmt = 'LINE INPUT %s;Q$' % strexpr(op['prompt'])
     _run_with_keys(c, keys, lambda: _exec(c, stmt, poll_cap=8000), False)
     _after_text_op(c, None, False)
